@@ -132,6 +132,8 @@ class AnnotGen:
         forced = kind is not None
         kind = kind or rng.choice(["s", "v", "v", "m"])
         b = Buf(self.nm("t"), kind, False, self.prec(), self.mem(False), "alloc", ln)
+        if kind == "s" and b.mem in ("DRAM_STACK", "DRAM_STATIC", "C15_STK2") and rng.random() < 0.85:
+            b.mem = None  # a scalar in these memories is the known unsized-array defect; keep it rare
         if b.mem == "AVX2" and (kind != "v" or ln != 8):
             if forced:
                 b.mem = None
@@ -276,8 +278,9 @@ class AnnotGen:
             if b.origin == "arg" and b.kind != "s" and not b.win and rng.random() < self.p_setwin:
                 ops.append('%s = set_window(%s, "%s", True)' % (name, name, b.name))
                 formals = [(fn, k, True if fn == b.name else w, ln) for (fn, k, w, ln) in formals]
-        if lower and rng.random() < self.p_inline:
-            callee = rng.choice(lower)["name"]
+        called = [f["name"] for f in lower if any(l.strip().startswith(f["name"] + "(") for l in body)]
+        if called and rng.random() < self.p_inline:
+            callee = rng.choice(called)
             ops.append("%s = inline(%s, \"%s(_)\")" % (name, name, callee))
         self.text.append(src + "\n".join(ops) + ("\n" if ops else ""))
         d = {"name": name, "formals": formals, "level": level}
